@@ -5,6 +5,8 @@ cd /repo || exit 2
 [ -n "$(git status --porcelain --untracked-files=no)" ] && { echo "/repo not clean"; exit 2; }
 git apply "$P" || { echo "patch does not apply"; exit 2; }
 for prop in "$@"; do
-  (cd /verif && python3 verif.py $prop 2>&1 | grep -E "violation:|VIOLATION|INFRA|obligations" | cut -c1-300 | head -12)
+  out=$(cd /verif && python3 verif.py $prop 2>&1)
+  echo "$out" | grep -E "violation:" | cut -c1-300 | head -8
+  echo "$out" | grep -E "^VIOLATION|INFRA|obligations" | cut -c1-300
 done
 git checkout -- .
